@@ -82,6 +82,9 @@ def gen_users(rng, tier, endpoints):
             ops.append(("upduser a " + rng.choice(USER_PARAMS)).strip())
             sess = "s%d" % (step + 1)
             ops.append("login a as=%s" % sess)
+            if rng.random() < 0.5:
+                # the session as a follower / a restarted node holds it (decoded from the raft log's encoding)
+                ops.append("relog %s" % sess)
         for ep in rng.sample(reads, 4) + rng.sample(endpoints, 3):
             for sp in rng.sample(SPELLINGS, 2):
                 ops.append("call %s ns=%s session=%s" % (ep, sp, sess))
@@ -94,11 +97,21 @@ def gen_users(rng, tier, endpoints):
         for ep in ("v2.config.list", "v2.service.list", "v2.instance.list", "v2.config.add", "v2.namespaces.list"):
             ops.append("call %s ns=nsa session=s0" % ep)
         ops += ["upduser a " + change, "login a as=s1"]
-        for ep in ("v2.config.list", "v2.service.list", "v2.instance.list", "v2.config.add", "v2.config.info", "v2.namespaces.list",
-                   "v1.config.list", "v1.services.list"):
-            for sp in ("nsa", "nsb", "omit"):
-                ops.append("call %s ns=%s session=s1" % (ep, sp))
+        for relog in (False, True):
+            if relog:
+                ops.append("relog s1")
+            for ep in ("v2.config.list", "v2.service.list", "v2.instance.list", "v2.config.add", "v2.config.info", "v2.namespaces.list",
+                       "v1.config.list", "v1.services.list"):
+                for sp in ("nsa", "nsb", "omit"):
+                    ops.append("call %s ns=%s session=s1" % (ep, sp))
         cases.append(Case("users-" + name, ops, True, "directed"))
+    # directed: every shape of privilege group, used through a session that was decoded from the raft log's encoding
+    for j, params in enumerate(USER_PARAMS):
+        ops = ["seed", ("mkuser a " + params).strip(), "login a as=s0", "relog s0"]
+        for ep in ("v2.config.list", "v2.service.list", "v2.config.add", "v2.config.info", "v2.namespaces.list", "v1.config.list"):
+            for sp in ("nsa", "nsb", "omit"):
+                ops.append("call %s ns=%s session=s0" % (ep, sp))
+        cases.append(Case("users-relog-%d" % j, ops, True, "directed"))
     return cases
 
 
